@@ -4,7 +4,8 @@ import GoUefi.Model.AuthDesc
 /-
   Impl model of authenticode/checksum.go and multireader.go after the fix: commits (F17 empty
   parts are skipped by the multi-reader; F5 a certificate-table size larger than the data after the
-  last section is an error, not a `Truncate` panic; F16 `Bytes()` does not pre-size its buffer).
+  last section is an error, not a `Truncate` panic; F16 `Bytes()` does not pre-size its buffer; F18 an
+  image whose headers and sections exceed the file size is rejected).
 
   `debug/pe.NewFile` is external: the model receives what it returned (`PeFacts`).
 -/
@@ -70,6 +71,7 @@ def parse (img : Bytes) (f : PeFacts) : Outcome Parsed :=
   let sum := f.soh + (secs.map (·.2)).sum
   let restLen := img.length - sum           -- io.Copy of everything from SUM on
   if restLen < f.ddSize then .err else      -- binaryRest < 0 (repaired: was a Truncate panic)
+  if img.length < sum then .err else        -- headers and sections exceed the file size (F18 repair)
   let binaryRest := restLen - f.ddSize
   let fileSize := sum + restLen
   let pad := pad8 fileSize
